@@ -295,6 +295,9 @@ def step(op, env):
         return V(a.names, a.sizes, a.arr.reshape(tuple(a.arr.shape[: len(a.names)]) + tuple(op["shape"])))
     if t == "align":
         return env[op["a"]]
+    if t == "approximate":  # exact interpretations return the model itself
+        env[op["b"]]
+        return env[op["a"]]
     if t == "constant":
         a = env[op["a"]]
         extra = [(n, s) for n, s in op["const"] if n not in a.names]
